@@ -652,3 +652,12 @@ package cache
 //@   loop 1 invariant 0 <= i && i <= 200000
 //@   loop 1 invariant i > 0 && i - 1 < answered && lastret("internal/wire.ParseRR", 1) && (lastret("internal/wire.ParseRR").Type == dns.TypeRRSIG || lastret("internal/wire.ParseRR").Type == dns.TypeNSEC || lastret("internal/wire.ParseRR").Type == dns.TypeNSEC3) ==> flags & wireHasDNSSEC != 0
 //@   assert at call internal/wire.ParseRR#1: arg0 == body
+//@
+//@ # ---- C03 (purge route): the scoped sweep removes an entry only when its stored question has the purged type and class
+//@ # and a name EQUAL UNDER ASCII CASE FOLDING ONLY (the verified equalNameASCIIFold == eqFold): no Unicode folding,
+//@ # nothing broader than the rule every lookup route applies
+//@ func (*Store).Purge$1
+//@   abstract
+//@   nosafety all pre
+//@   assert at call middleware/cache.equalNameASCIIFold#1: arg0 == e.question.Name && arg1 == q.Name && e.question.Qtype == q.Qtype && e.question.Qclass == q.Qclass
+//@   assert at append#1: lastret("middleware/cache.equalNameASCIIFold") && e.question.Qtype == q.Qtype && e.question.Qclass == q.Qclass && lastret("(*middleware/cache.CacheEntry).scoped")
